@@ -30,5 +30,15 @@ func c12documents(quick bool) []string {
 	docs := allCorpora(quick)
 	docs = append(docs, c04specValid, c04specInvalid, c05docA, c05docB)
 	docs = append(docs, c10multi...)
+	docs = append(docs, c12extraDocs...)
 	return docs
+}
+
+// valid documents whose definitions hold references BELOW a schema that carries a default or an
+// example (array items, a property, additionalProperties, an allOf member): the walkers compile such
+// schemas, and compiling resolves references in place
+var c12extraDocs = []string{
+	`{"swagger":"2.0","info":{"title":"t","version":"1"},"paths":{"/a":{"get":{"operationId":"g","responses":{"200":{"description":"ok","schema":{"$ref":"#/definitions/L"}}}}}},"definitions":{"I":{"type":"object","properties":{"n":{"type":"integer"}}},"L":{"type":"array","items":{"$ref":"#/definitions/I"},"default":[{"n":1}]}}}`,
+	`{"swagger":"2.0","info":{"title":"t","version":"1"},"paths":{"/a":{"get":{"operationId":"g","responses":{"200":{"description":"ok","schema":{"$ref":"#/definitions/L"}}}}}},"definitions":{"I":{"type":"object","properties":{"n":{"type":"integer"}}},"L":{"type":"object","properties":{"xs":{"type":"array","items":{"$ref":"#/definitions/I"},"example":[{"n":1}]},"one":{"$ref":"#/definitions/I"}},"additionalProperties":{"$ref":"#/definitions/I"},"default":{"one":{"n":2},"zz":{"n":3}}}}}`,
+	`{"swagger":"2.0","info":{"title":"t","version":"1"},"paths":{"/a":{"post":{"operationId":"p","parameters":[{"name":"b","in":"body","schema":{"type":"array","items":{"$ref":"#/definitions/I"},"default":[{"n":1}]}}],"responses":{"200":{"description":"ok","schema":{"allOf":[{"$ref":"#/definitions/I"},{"type":"object","properties":{"m":{"type":"string"}}}],"example":{"n":1,"m":"x"}}}}}}},"definitions":{"I":{"type":"object","properties":{"n":{"type":"integer"}}}}}`,
 }
